@@ -44,11 +44,17 @@ def tasks(tier):
                                 continue
                             combos.append((k1, n1, k2, n2, noise, mode))
     ts = [Task('verifHarness_C05_structured', list(c)) for c in combos] + ts
+    # T: every cut of a valid frame
+    for kind, n in (((0, 1), (1, 0), (2, 1)) if tier == 'quick' else ((0, 0), (0, 2), (1, 0), (1, 3), (2, 0), (2, 2))):
+        full = n + (8 if kind == 0 else 12 if kind == 1 else 25)
+        for cut in range(1, full):
+            for inj in ((0,) if tier == 'quick' and cut % 3 else (0, 1)):
+                ts.append(Task('verifHarness_C05_truncated', [kind, n, cut, inj]))
     return ts
 
 
 def required_reach(tier):
-    return ['C05/A', 'C05/B']
+    return ['C05/A', 'C05/B', 'C05/T']
 
 
 def bounds(tier):
@@ -56,6 +62,7 @@ def bounds(tier):
     return {'stream_length': 'every length 0..%d, every byte symbolic' % lmax,
             'segmentations': 'reference reader: one chunk; second reader: all 1-byte chunks, and every placement of up to %d cut points' % maxmode + ('' if tier == 'quick' else ' (length 8: 1-byte chunks only; length 7: at most one cut)'),
             'structured_streams': 'two frames (v1 / v2 / signed v2, payload 0..3, all contents symbolic) with 0..2 non-marker noise bytes before, between and after; second reader fed 1-byte chunks or with ' + ('one' if tier == 'quick' else 'one or two') + ' arbitrary cut point(s); ' + ('6 layouts' if tier == 'quick' else 'all kind pairs x 4 length pairs x 6 noise layouts'),
+            'truncated_frames': 'a valid v1 / v2 / signed v2 frame cut at every offset, transport ending with EOF or another error, whole or in 1-byte reads: no frame, parse errors only, then the transport error',
             'transport_end': 'io.EOF, and a non-EOF error after the last byte (= an error injected at every offset, since every length is explored)',
             'dialect_and_key': 'none (gates are C02/C06)'}
 
